@@ -12,7 +12,7 @@ LEVEL_TEXT = ("The fitted dictionaries of the four co-occurrence vectorizers, Ng
               "vectorizer are compared with an exact integer/rational model on generated corpora and constraint combinations, with frequency bounds "
               "placed exactly on attainable ratios c/T ('count equal to the bound is kept') or midway between them. The (count,total) space up to "
               "T=160 (quick) / 1200 (thorough) is enumerated completely through the real construct/prune functions (exhaustive for that sub-space), "
-              "and near-ties (counts c and c-1) are probed in corpora up to 9e6 tokens. Held = no violation on the executions produced.")
+              "and near-ties (counts c and c-1) are probed in corpora up to 9e6 tokens. The n-gram pruning stage is isolated (token stage provably idle) under occurrence, frequency and document-level bounds; a bound is also given as occurrences and frequency at once. Held = no violation on the executions produced.")
 LEVEL_NOTE = "Frequency bounds are only generated as exact c/T (Python float division) or midpoints between attainable ratios, so the expected outcome never depends on how a bound rounds."
 RULE = ("case = (corpus, constraint combination, estimator); non-trivial when the constraints prune at least one token and keep at least one; "
         "distinct = hash of corpus + constraints + estimator. Exhaustive part: every (count c, total T), 1<=c<=T<=bound, x {min/max occurrences, min/max frequency} x {c, c-1, c+1}")
